@@ -324,6 +324,39 @@ def gen(rng, tier):
             val = rng.choice([b"caf\xc3\xa9", b"\xff\xfe", b"a, \xe2\x82\xac", b"permessage-deflate; \xd0", b"", b",,,", b"x" * 300])
             data = ws.handshake(path=b"/t%d" % i, extra=[(nm, val)]) + ws.message_frames(ws.OP_TEXT, b"hi")
             yield _base(rng, "ws.hdr", data)
+        elif r < 0.545:
+            # valid head, then a body that violates its framing while the application is still reading it
+            head = b"POST /t%d HTTP/1.1\r\nHost: h\r\nTransfer-Encoding: chunked\r\n\r\n" % i
+            good = b"".join(b"%x\r\n%s\r\n" % (k, b"x" * k) for k in [rng.choice([1, 5, 300]) for _ in range(rng.choice([0, 1, 3]))])
+            bad = rng.choice([b"zz\r\nab\r\n", b"5\r\nabcdefgh\r\n", b"-1\r\n", b"5;" + b"e" * 20000 + b"\r\nabcde\r\n", b"\r\n\r\n", b"5\nabcde\n",
+                              b"0x5\r\nabcde\r\n", b"5 \x00\r\nabcde\r\n", b"ffffffffffffffffffffff\r\n", b"5\r\nabcde\rX"])
+            data = head + good + bad + rng.choice([b"", b"0\r\n\r\n"])
+            c = _base(rng, "h1.body-framing", data)
+            c["config"].pop("server_names", None)
+            yield c
+        elif r < 0.56:
+            # h2c upgrade whose HTTP2-Settings value is absent / duplicated / not base64url / not a SETTINGS payload / illegal values
+            import base64
+            import struct
+
+            def b64(b):
+                return base64.urlsafe_b64encode(b).rstrip(b"=")
+            val = rng.choice([None, b"", b"\xff\xfe", b"caf\xc3\xa9", b"!!!!", b"AAAA", b"A", b64(struct.pack(">HI", 2, 2)),
+                              b64(struct.pack(">HI", 4, 0xFFFFFFFF)), b64(struct.pack(">HI", 5, 1)), b64(struct.pack(">HI", 5, 1 << 24)),
+                              b64(struct.pack(">HI", 3, 0) + struct.pack(">HI", 4, 0)), b64(struct.pack(">HI", 0x99, 7)),
+                              b64(bytes(rng.randrange(256) for _ in range(rng.choice([5, 6, 7, 12, 60])))),
+                              b64(struct.pack(">HI", 1, 0)), b64(struct.pack(">HI", 6, 1)), b"AAMAAABkAAQAAP__"])
+            hdrs = [b"Host: h", b"Connection: Upgrade, HTTP2-Settings", b"Upgrade: " + rng.choice([b"h2c", b"H2C", b"h2c, websocket"])]
+            if val is not None:
+                hdrs.append(b"HTTP2-Settings: " + val)
+                if rng.random() < 0.15:
+                    hdrs.append(b"HTTP2-Settings: " + val)
+            rng.shuffle(hdrs)
+            data = b"GET /t%d HTTP/1.1\r\n" % i + b"\r\n".join(hdrs) + b"\r\n\r\n"
+            if rng.random() < 0.6:
+                v = _valid_h2(rng, i)
+                data += v if rng.random() < 0.7 else mutate(rng, v)
+            yield _base(rng, "h2c.upgrade", data)
         elif r < 0.62:
             v = _valid_ws(rng, i)
             head_end = v.index(b"\r\n\r\n") + 4
@@ -341,7 +374,7 @@ def nontrivial(case, obs):
     return obs.trace is not None and any(e[2] == "net" and e[3] == "read" for e in obs.trace.events)
 
 
-def _shadow_h11(case, obs):
+def _shadow_h11(case, obs, body_stage=False):
     """Feed the same reads to a shadow h11 server connection.  Returns the error_status_hint if the very first
     event is a RemoteProtocolError, else None."""
     import h11
@@ -350,7 +383,9 @@ def _shadow_h11(case, obs):
     reads = [e[4]["n"] for e in obs.trace.events if e[2] == "net" and e[3] == "read" and e[4]["n"] > 0]
     conn = h11.Connection(h11.SERVER, max_incomplete_event_size=(case.get("config") or {}).get("h11_max_incomplete_size", 16 * 1024))
     off = 0
+    reads_i = [0]
     for n in reads + [0]:
+        reads_i[0] += 1
         piece = data[off:off + n]
         off += n
         conn.receive_data(piece)
@@ -362,7 +397,37 @@ def _shadow_h11(case, obs):
             if n == 0:
                 return None
             continue
-        return None  # a request (or close) came first
+        if not isinstance(ev, h11.Request) or not body_stage:
+            return None  # a request (or close) came first
+        # the first request's head was fine: a framing error inside its body, before the application (which reads the whole body
+        # first) can have answered, must still get the hinted response
+        while True:
+            try:
+                ev = conn.next_event()
+            except h11.RemoteProtocolError as e:
+                return e.error_status_hint
+            if ev is h11.NEED_DATA:
+                if n == 0:
+                    return None
+                break
+            if not isinstance(ev, h11.Data):
+                return None
+        for n2 in reads[reads_i[0]:] + [0]:
+            piece = data[off:off + n2]
+            off += n2
+            conn.receive_data(piece)
+            while True:
+                try:
+                    ev = conn.next_event()
+                except h11.RemoteProtocolError as e:
+                    return e.error_status_hint
+                if ev is h11.NEED_DATA:
+                    break
+                if not isinstance(ev, h11.Data):
+                    return None
+            if n2 == 0:
+                return None
+        return None
     return None
 
 
@@ -400,8 +465,8 @@ def check(case, obs, tally):
             out.append({"clause": "crash", "sig": "C04.log-format/%s" % short.split(".")[0], "detail": text[:500]})
     if obs.handler == "exception":
         return out
-    if fam in ("h1.mutate", "random", "ws.mutate", "ws.hdr"):
-        hint = _shadow_h11(case, obs)
+    if fam in ("h1.mutate", "random", "ws.mutate", "ws.hdr", "h1.body-framing"):
+        hint = _shadow_h11(case, obs, body_stage="server_names" not in (case.get("config") or {}))
         if hint is not None:
             tally.clause("hint")
             closed = obs.closed_at is not None
@@ -411,6 +476,7 @@ def check(case, obs, tally):
                 resps = None
                 out.append({"clause": "hint", "sig": "C04.hint/malformed-response", "detail": str(e)})
             if resps is not None:
+                resps = [x for x in resps if x.status >= 200]  # a 100 Continue may precede it
                 if not resps or resps[0].status != hint:
                     out.append({"clause": "hint", "sig": "C04.hint/status",
                                 "detail": "malformed HTTP/1 (h11 hints %s) answered %r" % (hint, resps[0].status if resps else None)})
